@@ -38,7 +38,7 @@ META = {
     'min': {'evaluations': 1500, 'distinct': 200,
             'classes': {'cf1d:bounds=none': 5, 'cf1d:bounds=var': 5, 'cf1d:bounds=coord': 5, 'cf2d:bounds=none': 5,
                         'cf2d:bounds=var': 5, 'cf2d:bounds=coord': 3, 'cell:hole': 200, 'cell:polygon': 2000,
-                        'bowtie:dropped-with-warning': 3, 'extent:checked': 100, 'ugrid:coords-as-coordinates': 5}},
+                        'bowtie:dropped-with-warning': 3, 'extent:checked': 100, 'ugrid:hanging-node-mesh': 5, 'ugrid:coords-as-coordinates': 5}},
     'must_reach': ['emsarray.conventions.grid:CFGrid1DTopology._get_or_make_bounds',
                    'emsarray.conventions.grid:CFGrid2DTopology._get_or_make_bounds',
                    'emsarray.conventions.arakawa_c:ArakawaC._make_polygons', 'emsarray.conventions.ugrid:UGrid._make_polygons',
@@ -66,6 +66,11 @@ def run(ctx):
 
 
 def one_dataset(obs, rng, conv, kw, spec):
+    if conv == 'ugrid' and rng.random() < 0.2:
+        from ..model.ugrid import hanging_mesh
+        mesh, winding = hanging_mesh(rng)
+        kw = dict(kw, mesh=mesh, winding=winding)
+        obs.cls('ugrid:hanging-node-mesh')
     model = make(rng, conv, **kw)
     ds = model.encode()
     spec['model'] = model.describe()
@@ -115,6 +120,17 @@ def one_dataset(obs, rng, conv, kw, spec):
                        'polygon is exactly the cell the dataset describes',
                        lambda: {'n': n, 'native': model.native('face', n), 'got': None if got is None else got.wkt,
                                 'want': model.cells[n], 'mask': bool(mask[n])}, mech='polygon-unfaithful')
+    # a second, independent convention instance over the same dataset must build the same polygons (nothing the first
+    # one did may have altered the dataset or left state behind)
+    if rng.random() < 0.5:
+        with quiet_warnings():
+            second = obs.call('second convention instance', lambda: type(ems)(ds))
+            again = obs.call('polygons (second instance)', lambda: second.polygons) if not isinstance(second, Failed) else second
+        if not isinstance(again, Failed):
+            obs.cls('second-instance-compared')
+            same = len(again) == len(polygons) and all((a is None and b is None) or (a is not None and b is not None and a.equals_exact(b, 0))
+                                                       for a, b in zip(again, polygons))
+            obs.expect(same, 'a second convention instance over the same dataset builds identical polygons', mech='second-instance-differs')
     if not invalid and not model.derived_geometry:
         obs.expect(not messages, 'no InvalidPolygonWarning without an invalid cell', lambda: {'warnings': messages})
     # ---- extent -------------------------------------------------------------------------------------------
@@ -136,6 +152,13 @@ def one_dataset(obs, rng, conv, kw, spec):
         diff = geometry.symmetric_difference(union).area if geometry is not None else float('inf')
         obs.expect(diff <= 1e-9 * max(area, 1e-12), 'geometry == union of the cell polygons',
                    lambda: {'sym_diff_area': diff, 'area': area, 'type': getattr(geometry, 'geom_type', None)}, mech='geometry-wrong')
+        if not model.derived_geometry and geometry is not None:
+            # stored geometry: the union is exact, so the reported geometry must be a valid geometry that is
+            # topologically equal to it (an unmerged pile of cells has the right area but is not the union)
+            obs.expect(bool(geometry.is_valid) and bool(geometry.equals(union)) and len(getattr(geometry, 'geoms', [geometry])) == len(getattr(union, 'geoms', [union])),
+                       'geometry is valid and topologically equal to the union of the cell polygons',
+                       lambda: {'valid': bool(geometry.is_valid), 'parts': len(getattr(geometry, 'geoms', [geometry])),
+                                'want parts': len(getattr(union, 'geoms', [union]))}, mech='geometry-wrong')
     if len(obs.samples) < 4 and (holes or invalid):
         obs.sample({'convention': conv, 'encoding': {k: v for k, v in e.items() if k not in ('tables', 'edge_flip')},
                     'shape': model.kinds['face'].shape, 'holes': list(holes)[:8], 'invalid': sorted(invalid),
